@@ -201,7 +201,7 @@ func (g mapGenerator) EmitNodeMethodLookupByNode(w io.Writer) {
 		func (n {{ .Type | TypeSymbol }}) LookupByNode(k datamodel.Node) (datamodel.Node, error) {
 			k2, ok := k.({{ .Type.KeyType | TypeSymbol }})
 			if !ok {
-				panic("todo invalid key type error")
+				return nil, schema.ErrInvalidKey{TypeName: "{{ .PkgName }}.{{ .Type.Name }}", Key: k, Reason: schema.ErrUnmatchable{TypeName: "{{ .PkgName }}.{{ .Type.Name }}"}.Reasonf("key node must be of the map's key type, got %T", k)}
 				// 'schema.ErrInvalidKey{TypeName:"{{ .PkgName }}.{{ .Type.Name }}", Key:&_String{k}}' doesn't quite cut it: need room to explain the type, and it's not guaranteed k can be turned into a string at all
 			}
 			v, exists := n.m[*k2]
